@@ -52,7 +52,9 @@ Judge(c, s, e) ==
               << borderOk, "border_vertices_in_border_order_at_distinct_positions_on_the_convex_shape" >>,
               << ~wAvail \/ meanOk, "interior_vertices_at_the_weighted_average_of_their_neighbours" >>,
               << (e.cotan = 1 /\ (~wAvail \/ ~wNonNeg)) \/ (\E f \in 1..D.nf : onSide(f))
-                 \/ (\A f \in 1..D.nf : e.sg[f] = e.sg[1] /\ e.sg[f] # 0), "every_triangle_has_the_same_strict_orientation" >> >>, cls, "", s)
+                 \/ (\A f \in 1..D.nf : e.sg[f] = e.sg[1] /\ e.sg[f] # 0), "every_triangle_has_the_same_strict_orientation" >> >>,
+           cls \o (IF e.cotan = 1 /\ wAvail /\ wNonNeg /\ (\E k \in 1..Len(g.E) : IsInteriorEdge(D, g.E[k][1], g.E[k][2]) /\ wts[k][1] = 0)
+                   THEN "/zero_weight_on_an_interior_edge" ELSE ""), "", s)
 W0 == INSTANCE Walker
 Spec == W0!Spec
 =============================================================================
